@@ -842,7 +842,7 @@ steps:
 				res.Hang, res.HangWhat = true, "exchange-does-not-return"
 				break steps
 			}
-		case "Retry", "Tick01", "CloseReturns", "TcpRefuse", "DialAbort", "ConnClose", "GoExit", "UGoExit", "QueryTimeout", "UdpTimeout":
+		case "Retry", "Fallback", "Attach", "Tick01", "CloseReturns", "TcpRefuse", "DialAbort", "ConnClose", "GoExit", "UGoExit", "QueryTimeout", "UdpTimeout":
 		default:
 			fail("unknown step " + stp.A)
 			break steps
